@@ -10,6 +10,7 @@ use crate::sink::SharedSink;
 use bigtools::utils::misc::{bigwig_average_over_bed, stats_for_bed_item, Name};
 use bigtools::BedEntry;
 use proptest::prelude::*;
+use proptest::sample::select;
 use serde::{Deserialize, Serialize};
 use std::process::Command;
 
@@ -41,6 +42,9 @@ pub struct Case {
     /// the BED text ends without a final newline
     #[serde(default)]
     pub no_final_newline: bool,
+    /// the middle row carries an additional last column of this many bytes (rows beyond any read buffer)
+    #[serde(default)]
+    pub long_col: u32,
 }
 
 pub struct C17;
@@ -182,11 +186,12 @@ impl Prop for C17 {
                 3 => proptest::collection::vec(prop_oneof![1 => 2u8..=16, 1 => 11u8..=16], 1..=3),
             ],
             prop::bool::weighted(0.3),
+            prop_oneof![12 => Just(0u32), 1 => select(vec![8192u32, 12_000, 70_000])],
         )
-            .prop_map(|(file, regions, name, min_max, threads, no_final_newline)| {
+            .prop_map(|(file, regions, name, min_max, threads, no_final_newline, long_col)| {
                 // the large files always go through the tool with few threads (big chunks)
                 let threads = if regions.len() >= 900 { vec![2, 3] } else { threads };
-                Case { file, regions, name, min_max, threads, no_final_newline }
+                Case { file, regions, name, min_max, threads, no_final_newline, long_col }
             })
             .boxed()
     }
@@ -224,6 +229,12 @@ impl Prop for C17 {
                 .collect::<Vec<_>>()
                 .join("\t");
             rows.push(Row { chrom: ch.name.clone(), s, e, rest, ci });
+        }
+        if case.long_col > 0 && !rows.is_empty() {
+            let k = rows.len() / 2;
+            let pad = "x".repeat(case.long_col as usize);
+            rows[k].rest = if rows[k].rest.is_empty() { format!("longrow\t{}", pad) } else { format!("{}\t{}", rows[k].rest, pad) };
+            obs.label("row-longer-than-8KiB");
         }
         let straddle = rows.iter().any(|r| {
             let ch = &input.chroms[r.ci];
